@@ -8,6 +8,7 @@ from vf.gen import eqsys as G
 
 class C03(object):
     id = 'C03'
+    anchors = ('EquationParser.EquationReduction', 'EquationParser.FindExactMatches', 'EquationParser.MoveDecorative', 'EquationSolver._SolveStep')
     title = 'Equation reduction never changes any solution value'
     rule = ('one case = one equation system solved twice by the real solver, run_equation_reduction True and False; '
             'systems have alias chains (length <= 4, both declaration orders, aliases of simultaneous, lagged, exogenous '
